@@ -9,9 +9,12 @@ import (
 	"context"
 	"encoding/json"
 	"fmt"
+	"github.com/twmb/franz-go/pkg/kerr"
 	"math/rand"
+	"net"
 	"os"
 	"sort"
+	"strconv"
 	"testing"
 	"testing/synctest"
 	"time"
@@ -29,6 +32,9 @@ type Scenario struct {
 	Kind    string   `json:"kind"`
 	Items   []string `json:"items"`
 	Fault   string   `json:"fault"` // none | drop1 | drop2 | shuffle | shuffle+drop
+	// Leaderless: metadata reports tb/3 without a leader (LEADER_NOT_AVAILABLE); with an unknown topic in the same request there are
+	// unattempted items of two different error classes
+	Leaderless bool `json:"leaderless,omitempty"`
 }
 
 var kinds = []string{"ListOffsets", "OffsetForLeaderEpoch", "DeleteRecords", "DescribeProducers", "DescribeGroups", "DeleteGroups", "OffsetFetch", "FindCoordinator", "DescribeTransactions", "ListGroups", "ListTransactions"}
@@ -54,6 +60,18 @@ func gen(seed int64) Scenario {
 		}
 		if r.Intn(6) == 0 {
 			sc.Items = append(sc.Items, "ta/9") // a partition that does not exist
+		}
+		if r.Intn(4) == 0 {
+			sc.Leaderless = true
+			have := map[string]bool{}
+			for _, it := range sc.Items {
+				have[it] = true
+			}
+			for _, it := range []string{"tb/3", "nope/0"} {
+				if !have[it] {
+					sc.Items = append(sc.Items, it)
+				}
+			}
 		}
 	case sc.Kind == "ListGroups" || sc.Kind == "ListTransactions":
 	default:
@@ -309,6 +327,53 @@ func runScenario(t *testing.T, rec *sim.Recorder, sc Scenario) {
 			kgo.RetryBackoffFn(func(int) time.Duration { return 20 * time.Millisecond }), kgo.DisableClientMetrics())
 		if err != nil {
 			t.Fatal(err)
+		}
+		if sc.Leaderless {
+			ids := map[string][16]byte{"ta": c.TopicInfo("ta").TopicID, "tb": c.TopicInfo("tb").TopicID}
+			c.ControlKey(int16(kmsg.Metadata), func(kreq kmsg.Request) (kmsg.Response, error, bool) {
+				c.KeepControl()
+				req := kreq.(*kmsg.MetadataRequest)
+				if len(req.Topics) == 0 {
+					return nil, nil, false
+				}
+				resp := req.ResponseKind().(*kmsg.MetadataResponse)
+				for i, a := range c.ListenAddrs() {
+					host, ps, _ := net.SplitHostPort(a)
+					port, _ := strconv.Atoi(ps)
+					sb := kmsg.NewMetadataResponseBroker()
+					sb.NodeID, sb.Host, sb.Port = int32(i), host, int32(port)
+					resp.Brokers = append(resp.Brokers, sb)
+				}
+				for _, rt := range req.Topics {
+					name := ""
+					if rt.Topic != nil {
+						name = *rt.Topic
+					}
+					for n, id := range ids {
+						if id == rt.TopicID && name == "" {
+							name = n
+						}
+					}
+					st := kmsg.NewMetadataResponseTopic()
+					st.Topic, st.TopicID = kmsg.StringPtr(name), rt.TopicID
+					if id, ok := ids[name]; ok {
+						st.TopicID = id
+						for p := int32(0); p < 4; p++ {
+							sp := kmsg.NewMetadataResponseTopicPartition()
+							sp.Partition, sp.Leader, sp.LeaderEpoch = p, c.LeaderFor(name, p), 0
+							sp.Replicas, sp.ISR = []int32{sp.Leader}, []int32{sp.Leader}
+							if name == "tb" && p == 3 {
+								sp.ErrorCode, sp.Leader = kerr.LeaderNotAvailable.Code, -1
+							}
+							st.Partitions = append(st.Partitions, sp)
+						}
+					} else {
+						st.ErrorCode = kerr.UnknownTopicOrPartition.Code
+					}
+					resp.Topics = append(resp.Topics, st)
+				}
+				return resp, nil, true
+			})
 		}
 		broadcast := sc.Kind == "ListGroups" || sc.Kind == "ListTransactions"
 		requested := sc.Items
